@@ -45,11 +45,60 @@ def parseRaw (j : Json) : Except String RawView := do
   | "badPairs" => return .badPairs
   | t => throw s!"bad raw {t}"
 
+def parseRaise (n : String) : Raise :=
+  match n with
+  | "KeyError" => .keyError | "ValueError" => .valueError | "TypeError" => .typeError
+  | "AttributeError" => .attributeError | "RuntimeError" => .runtimeError
+  | "LookupError" => .lookupError | "AssertionError" => .assertionError
+  | _ => .unsupported
+
 def parsePart (j : Json) : Except String PartVal :=
   match j with
   | .null => pure .none
   | .str s => pure (.str s.toList)
   | _ => pure .raises
+
+def parsePort (j : Json) : Except String PortVal :=
+  match j with
+  | .null => pure .none
+  | .num _ => do return .int (← j.getInt?)
+  | _ => pure .raises
+
+def parseSix (j : Json) : Except String Six := do
+  match (← (← arr j).mapM chars) with
+  | [a, b, c, d, e, f] =>
+    return { scheme := a, netloc := b, path := c, params := d, query := e, fragment := f }
+  | _ => throw "a parse result has six parts"
+
+def parseLib (j : Json) : Except String UrlLib := do
+  if isNull j then return {}
+  let parse ← (← arr (fldD j "parse" (Json.arr #[]))).mapM (fun p => do
+    match (← arr p) with
+    | [t, r] =>
+      let rs := fldD r "raises" Json.null
+      if !isNull rs then
+        return ((← chars t), (Sum.inl (parseRaise (← str rs)) : Raise ⊕ Parsed))
+      else
+        let rec' : Parsed := {
+          six := ← parseSix (← fld r "six"),
+          username := ← parsePart (fldD r "username" Json.null),
+          password := ← parsePart (fldD r "password" Json.null),
+          hostname := ← parsePart (fldD r "hostname" Json.null),
+          port := ← parsePort (fldD r "port" Json.null) }
+        return ((← chars t), Sum.inr rec')
+    | _ => throw "bad parse entry")
+  let u := fldD j "unparse" Json.null
+  let unparse ← if isNull u then pure none else do
+    let l ← (← arr u).mapM (fun p => do
+      match (← arr p) with
+      | [parts, r] =>
+        let rs := fldD r "raises" Json.null
+        let ps ← (← arr parts).mapM chars
+        if !isNull rs then return (ps, (Sum.inl (parseRaise (← str rs)) : Raise ⊕ Val))
+        else return (ps, Sum.inr (← valD r "v"))
+      | _ => throw "bad unparse entry")
+    pure (some l)
+  return { parse := parse, unparse := unparse }
 
 def parseView (j : Json) : Except String View := do
   let fields ← (← arr (fldD j "fields" (Json.arr #[]))).mapM parseField
@@ -57,16 +106,12 @@ def parseView (j : Json) : Except String View := do
     match (← arr p) with
     | [v, u] => return ((← parseVal v), (← chars u))
     | _ => throw "bad sibling")
-  let optStrs (k : String) : Except String (Option (List Str)) := do
-    let x := fldD j k Json.null
-    if isNull x then return none else return some (← (← arr x).mapM chars)
-  let http ← do
-    let x := fldD j "http_parts" Json.null
-    if isNull x then pure none else pure (some (← (← arr x).mapM parsePart))
-  let canon ← do
-    let x := fldD j "canon" Json.null
-    if isNull x then pure none else pure (some (← valD x "v"))
+  let sibState ← (← arr (fldD j "sibling_state" (Json.arr #[]))).mapM (fun p => do
+    match (← arr p) with
+    | [f, n] => return ((← optOf bool f), (← nat n))
+    | _ => throw "bad sibling state")
   return {
+    siblingState := sibState,
     value := ← valD j "value", u := ← chars (fldD j "u" (Json.str "")),
     label := ← valD j "label", name := ← valD j "name",
     isSequence := ← boolD j "is_seq" false,
@@ -81,9 +126,7 @@ def parseView (j : Json) : Except String View := do
     schemaKeys := ← strsD j "schema_keys",
     idna := ← optOf chars (fldD j "idna" Json.null),
     localOk := ← optOf bool (fldD j "local_ok" Json.null),
-    urlParts := ← optStrs "url_parts",
-    httpParts := http,
-    canon := canon }
+    lib := ← parseLib (fldD j "lib" Json.null) }
 
 def parseRules (j : Json) : Except String (List (Str × PartRule)) := do
   (← arr j).mapM (fun p => do
@@ -91,6 +134,8 @@ def parseRules (j : Json) : Except String (List (Str × PartRule)) := do
     | [k, r] =>
       let rule ← (match r with
         | .bool true => pure PartRule.always
+        | .bool false => pure PartRule.off
+        | .null => pure PartRule.off
         | _ => do return PartRule.oneOf (← (← arr r).mapM chars))
       return ((← chars k), rule)
     | _ => throw "bad rule")
@@ -127,11 +172,9 @@ def parseV (j : Json) : Except String V := do
   | "IsEmail" => return .isEmail (← boolD j "non_local" true)
   | "URLValidator" =>
     let schemes := fldD j "allowed_schemes" Json.null
-    let s ← if isNull schemes then pure none else do
-      let l ← (← arr schemes).mapM chars
-      pure (if l == [['*']] then none else some l)          -- `allowed_schemes != ('*',)`
+    let s ← if isNull schemes then pure [['*']] else (← arr schemes).mapM chars
     let parts := fldD j "allowed_parts" Json.null
-    let p ← if isNull parts then pure urlPartNames else (← arr parts).mapM chars
+    let p ← if isNull parts then pure (UrlPart.all.map UrlPart.name) else (← arr parts).mapM chars
     return .urlValidator s p
   | "HTTPURLValidator" =>
     let defReq : List (Str × PartRule) :=
@@ -140,7 +183,9 @@ def parseV (j : Json) : Except String V := do
       [("username".toList, .always), ("password".toList, .always)]
     let r := fldD j "required_parts" Json.null
     let f := fldD j "forbidden_parts" Json.null
-    return .httpURL (← if isNull r then pure defReq else parseRules r)
+    let ap := fldD j "all_parts" Json.null
+    return .httpURL (← if isNull ap then pure httpPartNames else (← arr ap).mapM chars)
+                    (← if isNull r then pure defReq else parseRules r)
                     (← if isNull f then pure defForb else parseRules f)
   | "URLCanonicalizer" =>
     let d := fldD j "discard_parts" Json.null
@@ -150,7 +195,12 @@ def parseV (j : Json) : Except String V := do
 def run (j : Json) : Except String Json := do
   let v ← parseV (← fld j "v")
   let e ← parseView (← fld j "view")
-  let pre ← (← arr (fldD j "pre_errors" (Json.arr #[]))).mapM chars
+  let preErrors ← (← arr (fldD j "pre_errors" (Json.arr #[]))).mapM chars
+  let preWarnings ← (← arr (fldD j "pre_warnings" (Json.arr #[]))).mapM chars
+  -- `note: "warning"`: the validator reports through `note_warning` — the same function on the
+  -- element's warnings list (`Validator.note_warning` = `note_error` with `add_warning`)
+  let warn := (← str (fldD (← fld j "v") "note" (Json.str "error"))) == "warning"
+  let pre := if warn then preWarnings else preErrors
   let container ← boolD (← fld j "view") "container" false
   let ovs ← (← arr (fldD (← fld j "v") "messages" (Json.arr #[]))).mapM (fun p => do
     match (← arr p) with
@@ -163,21 +213,28 @@ def run (j : Json) : Except String Json := do
           | _ => throw "bad message override")
       return ((← str k), msg)
     | _ => throw "bad message override")
-  let res := Flatland.C15.runOverridden ovs v e pre
+  let res := if warn then Flatland.C15.runWarnOverridden ovs v e pre else Flatland.C15.runOverridden ovs v e pre
   let spec := Spec.documented v e
+  let known : Bool := match spec with
+    | some d => Flatland.C15.Spec.httpNoValue v e d
+    | none => false
   let agrees : Bool := match res, spec with
-    | .ok o, some b => o.verdict == b
+    | .ok o, some b => o.verdict == b || known
     | _, _ => true
+  -- the value the documentation promises for URLCanonicalizer (`canonicalizer_value`)
+  let specValue : Bool := match v, spec, res with
+    | .urlCanonicalizer ds, some _, .ok o => valJson o.value == valJson (Spec.canonValue ds e.value e.lib)
+    | _, _, _ => true
   match res with
   | .error r =>
-    return obj [("raise", Json.str r.name), ("verdict", Json.null), ("errors", ofList ofChars pre),
-                ("warnings", Json.arr #[]),
+    return obj [("raise", Json.str r.name), ("verdict", Json.null),
+                ("errors", ofList ofChars preErrors), ("warnings", ofList ofChars preWarnings),
                 ("value_after", Json.null), ("spec_agrees", Json.bool agrees)]
   | .ok o =>
     return obj [("raise", Json.null), ("verdict", Json.bool o.verdict),
-                ("warnings", Json.arr #[]),     -- no built-in validator calls note_warning
-                ("errors", ofList ofChars o.errors),
+                ("warnings", ofList ofChars (if warn then o.errors else preWarnings)),
+                ("errors", ofList ofChars (if warn then preErrors else o.errors)),
                 ("value_after", if container then Json.str "<unchanged>" else valJson o.value),
-                ("spec_agrees", Json.bool agrees)]
+                ("spec_agrees", Json.bool (agrees && specValue))]
 
 end Flatland.Run.C15
